@@ -4,7 +4,7 @@ from props import solverstream as ss, tracecheck as tc, enctie, antie, solvertie
 
 THEOREMS = ["C01_oracle_correct", "C01_closed_model_valid", "C01_final_state_valid", "C01_trace_sound",
             "C01_encoder_complete", "C01_encoder_model_valid", "C01_encoder_final_closed",
-            "C01_watch_created_ok", "C01_unit_is_asserted", "C01_late_lock_is_handled", "C01_decide_complete", "C01_complete_units_hold"]
+            "C01_watch_created_ok", "C01_unit_is_asserted", "C01_late_lock_is_handled", "C01_decide_complete", "C01_complete_units_hold", "C01_solver_model_complete", "C01_solver_model_loses_no_clause"]
 CHECKER = ("coqc Props/C01.v + Print Assumptions; harness solve_cases (debug+release, sync+yield): (a) hook logs -> extracted "
            "check_sat_log_lenient (trace inclusion, theorem C01_trace_sound), (b) extracted o_valid on every returned solution, "
            "(c) extracted encoder model (enc_solve) vs the dumped clause database of every synchronous run: clause-for-clause "
@@ -32,7 +32,7 @@ def run(res, tier, seed, replay):
         if not solvertie.ok(r):
             res.tie_break(f"whole-run correspondence no longer checks for a synchronous run in {r['stream']}: the result, the sequence of "
                           f"trail events, the clause database or the provider calls of the implementation differ from what the model of "
-                          f"Solver::solve (Cdcl/Solver.v) computes from the provider data and the problem: {r['solver']}",
+                          f"Solver::solve (Cdcl/Solver.v) computes from the provider data and the problem, or the model's side conditions fail (side_conditions: s_ok; born: the exempt set of C01_solver_model_loses_no_clause is non-empty at the end of a run without soft requirements): {r['solver']}",
                           dict(ss.replay_obj(r), solver_model=r["solver"]))
         if not antie.ok_complete(r):
             res.tie_break(f"at a call of Solver::decide a clause of the database was falsified or an assertion (exclusion, Unknown "
